@@ -21,6 +21,7 @@ var repoDir = func() string {
 	}
 	return "/repo"
 }()
+
 const modPath = "github.com/daeuniverse/dae"
 
 func loadWorld(patterns []string, overlay map[string][]byte) (*World, error) {
@@ -56,7 +57,21 @@ func loadWorld(patterns []string, overlay map[string][]byte) (*World, error) {
 		return nil, fmt.Errorf("%d type/load errors in packages under verification", nerr)
 	}
 	prog, _ := ssautil.AllPackages(pkgs, ssa.InstantiateGenerics|ssa.GlobalDebug)
-	w := &World{Prog: prog, Fset: prog.Fset, Contracts: NewContractSet(), Pkgs: map[string]*ssa.Package{}, TypesPkgs: map[string]*types.Package{}}
+	w := &World{Prog: prog, Fset: prog.Fset, Contracts: NewContractSet(), Pkgs: map[string]*ssa.Package{}, TypesPkgs: map[string]*types.Package{}, Aliases: map[string]map[string]string{}}
+	packages.Visit(pkgs, nil, func(p *packages.Package) {
+		if !strings.HasPrefix(p.PkgPath, modPath) {
+			return
+		}
+		al := map[string]string{}
+		for _, f := range p.Syntax {
+			for _, im := range f.Imports {
+				if im.Name != nil && im.Name.Name != "_" && im.Name.Name != "." {
+					al[im.Name.Name] = strings.Trim(im.Path.Value, "\"")
+				}
+			}
+		}
+		w.Aliases[p.PkgPath] = al
+	})
 	// build only the packages of the module (dependencies are consulted through types only)
 	var wg sync.WaitGroup
 	for _, sp := range prog.AllPackages() {
